@@ -142,6 +142,24 @@ def client_execute(case, stats):
         check(isinstance(d, c2.ClientC2Data), "recover:type", f"recover(request) returned {type(d)}")
 
     recovered(msg, "library message", base_uri)
+    # one transform object used repeatedly must behave like a fresh one each time (no state carried between calls)
+    if not (uri_append and base_uri):
+        t = new_transform()
+        other = c2.C2Data(output=fields["output"][::-1] + b"!", metadata=b"M" + fields["metadata"], id=fields["id"] + b"7")
+        random.seed(case["rng"] ^ 1)
+        lib(t.transform, other, _mk_initial(ini, c2), what="transform (first use)")
+        state2 = random.getstate()
+        random.seed(case["rng"])
+        try:
+            req_again = lib(t.transform, c2data, _mk_initial(ini, c2), what="transform (second use of the same object)")
+        finally:
+            random.setstate(state)
+        if _msg_of(req_again) != msg:
+            raise Violation("transform:depends_on_history", f"second transform() on the same object differs from a fresh one: {_msg_of(req_again)!r} vs {msg!r}; steps={steps!r}"[:1500])
+        r = c2.HttpRequest(method=b"GET", uri=msg["uri"], params=dict(msg["params"]), headers=dict(msg["headers"]), body=msg["body"])
+        d1 = lib(t.recover, r, what="recover (same object)")
+        d2 = lib(t.recover, r, what="recover (same object, again)")
+        check(tuple(d1) == tuple(d2) and all(getattr(d1, k) == fields[k] for k in kinds), "recover:depends_on_history", f"recover() on a re-used transform object: {tuple(d1)!r} / {tuple(d2)!r}")
     # (c) library decodes reference messages (own masks, optional unpadded base64url)
     ref_msg2 = T.client_encode(steps, fields, initial=ini, masks=case["masks"], pad_b64url=case["pad_b64url"])
     recovered(ref_msg2, "reference message" + ("" if case["pad_b64url"] else " (unpadded base64url)"), base_uri)
